@@ -101,6 +101,8 @@ func (gg *ggraph) emit(op string, ins []string, outs []gv, attrs ...*onnx.Attrib
 		if len(gg.nodes) > 0 && len(gg.nodes[len(gg.nodes)-1].Output) > 0 {
 			n.Name = gg.nodes[len(gg.nodes)-1].Output[0]
 		}
+	case 3, 4:
+		n.Name = "layer" // node names are diagnostic only: several nodes may carry the same one
 	}
 	gg.nodes = append(gg.nodes, n)
 	for _, i := range ins {
